@@ -5,7 +5,7 @@
    [wire_len ls <= 255] is RFC 1035's length limit.  The model functions are those of
    Model/NameText.v; the right-hand sides are the list-level definitions of Spec/NameTextS.v. *)
 From QV Require Import Base.ListX Model.NameWire Model.NameText Spec.NameWireS Spec.NameRepr Spec.NameTextS
-  Proofs.NameLabelsP Proofs.NameCmpP.
+  Proofs.NameLabelsP Proofs.NameCmpP Proofs.NameTextP.
 
 (* labels() / Index<usize> of a well-formed name yield its labels followed by the root label, without panic *)
 Theorem c16_labels : forall ls, wire_len ls <= 255 -> labels (name_of ls) = Ok (ls ++ [[]]).
@@ -59,6 +59,63 @@ Proof. exact eq_or_subdomain_spec. Qed.
 Theorem c16_is_root : forall ls, is_root (name_of ls) = match ls with [] => true | _ => false end.
 Proof. exact is_root_spec. Qed.
 
+(* ---- text form ---------------------------------------------------------------------------------------- *)
+
+(* FromStr accepts EXACTLY the (ASCII) texts that denote, under the declarative unescape-and-split relation
+   [text_denotes] (RFC 1035 §5.1 / RFC 4343 §2.1), an absolute name whose labels have 1..63 octets and whose
+   wire form has at most 255 octets — and returns that name's representation. *)
+Theorem c16_text_accepts : forall s n, is_ascii_text s ->
+  (name_from_str s = Ok n <-> exists ls, text_denotes s ls /\ wf_name ls /\ n = name_of ls).
+Proof. exact name_from_str_iff. Qed.
+
+(* Display of a well-formed name: "." for the root, otherwise every label rendered (with "\.", "\\", "\DDD"
+   escapes) and followed by a dot; no panic. *)
+Theorem c16_display : forall ls, wire_len ls <= 255 ->
+  name_to_text (name_of ls) =
+  Ok (match ls with [] => [46%N] | _ => flat_map (fun l => label_to_text l ++ [46%N]) ls end).
+Proof. exact name_to_text_spec. Qed.
+
+(* Rendering any well-formed name gives ASCII text that denotes the name, and parsing it back gives the
+   identical value (label offsets and wire form). *)
+Theorem c16_text_roundtrip : forall ls, wf_name ls ->
+  exists t, name_to_text (name_of ls) = Ok t /\ is_ascii_text t /\ text_denotes t ls /\
+            name_from_str t = Ok (name_of ls).
+Proof. exact text_roundtrip. Qed.
+
+(* ---- NameBuilder (try_push, next_label, finish) --------------------------------------------------------
+   [brepr b (ds, cur)]: builder b holds the finished labels ds and the partial label cur (Proofs/NameTextP.v);
+   [astep] is the abstract step: an octet is appended iff the label stays <= 63 and the wire form <= 255,
+   a label is closed iff it is non-empty and there is room for the next length octet.  Every operation either
+   succeeds with the builder representing the stepped state (limits [ast_ok] preserved) or returns an error
+   (the caller's builder value is untouched); it never panics.  try_push_slice and finish_with_suffix are
+   modelled and differentially tested but have no theorem: hence _partial. *)
+Theorem c16_builder_partial : forall b st t, brepr b st -> ast_ok st ->
+  match astep st t with
+  | Some st' => exists b', feed1 b t = Ok b' /\ brepr b' st' /\ ast_ok st'
+  | None => exists e, feed1 b t = Err e
+  end.
+Proof. exact feed1_step. Qed.
+
+Theorem c16_builder_finish : forall b st, brepr b st -> ast_ok st ->
+  finish b = (if is_nil (snd st) then Ok (name_of (fst st)) else Err NonNullTerminal) /\
+  (snd st = [] -> Forall (fun l : list N => 1 <= length l <= 63) (fst st) /\ wire_len (fst st) <= 255).
+Proof. exact builder_finish. Qed.
+
+(* Non-vacuity. *)
+Example c16_example :
+  let ls := [[119; 46; 65]; [0; 92]]%N in
+  wf_name ls /\
+  name_to_text (name_of ls) = Ok [119; 92; 46; 65; 46; 92; 48; 48; 48; 92; 92; 46]%N /\
+  name_from_str [119; 92; 46; 65; 46; 92; 48; 48; 48; 92; 92; 46]%N = Ok (name_of ls) /\
+  name_cmp (name_of ls) (name_of [[119; 46; 97]; [0; 92]]%N) = Ok Eq /\
+  name_from_str [97; 46; 46]%N = Err NullNonTerminal /\ name_from_str [97]%N = Err NonNullTerminal /\
+  brepr builder_new ([], []) /\ ast_ok ([], []).
+Proof.
+  cbv zeta. split.
+  - split; [|vm_compute; lia]. repeat constructor; cbn; try lia.
+  - repeat split; try (vm_compute; reflexivity); try constructor; try (vm_compute; lia).
+Qed.
+
 Print Assumptions c16_labels.
 Print Assumptions c16_label_index.
 Print Assumptions c16_eq.
@@ -69,3 +126,8 @@ Print Assumptions c16_order_total.
 Print Assumptions c16_order_eq_consistent.
 Print Assumptions c16_subdomain.
 Print Assumptions c16_is_root.
+Print Assumptions c16_text_accepts.
+Print Assumptions c16_display.
+Print Assumptions c16_text_roundtrip.
+Print Assumptions c16_builder_partial.
+Print Assumptions c16_builder_finish.
